@@ -55,7 +55,12 @@ func verifTV(c system.Collection) int {
 
 // verifCriterion draws the result of a criterion for one item; meaning: 0 false, 1 true, 2 empty, 3 multi-item (error).
 func verifCriterion(label string) (system.Collection, int) {
-	switch verifrt.Choose(label+".form", 8) {
+	switch verifrt.Choose(label+".form", 9) {
+	case 8: // and so does a primitive element that has no System value (a Quantity without a value, an unsignedInt beyond 32 bits)
+		if verifrt.NondetBool(label + ".unsigned") {
+			return system.Collection{&dtpb.UnsignedInt{Value: 3000000000}}, 1
+		}
+		return system.Collection{&dtpb.Quantity{Code: &dtpb.Code{Value: "mg"}}}, 1
 	case 6: // a complex element counts as true like any other single non-Boolean item
 		return system.Collection{&dtpb.HumanName{Family: &dtpb.String{Value: verifrt.NondetString(label+".fam", 1)}}}, 1
 	case 7: // so does a FHIR primitive that is not a boolean
